@@ -273,7 +273,13 @@ fn layer1(ctx: &Ctx) {
 fn layer2(ctx: &Ctx) {
     let bound = ctx.tier.pick(2, 3);
     let cap = ctx.tier.pick(1500u64, 60_000);
-    for g in grammars().into_iter() {
+    // wall budget of the layer, shared evenly by the configurations still to run (a configuration
+    // that runs out of time is reported as capped, never as fully explored)
+    let layer_deadline = ctx.budget_s * 0.85;
+    let gs = grammars();
+    let total_cfgs = (gs.len() * if ctx.quick() { 3 } else { 4 }) as f64;
+    let mut done_cfgs = 0f64;
+    for g in gs.into_iter() {
         if ctx.has_violations() {
             break;
         }
@@ -346,7 +352,11 @@ fn layer2(ctx: &Ctx) {
                 }
                 ok
             };
-            let (out, complete) = explore_schedules(bound, cap, &mut mk, &mut check);
+            let remaining = (layer_deadline - ctx.elapsed()).max(1.0);
+            let share = remaining / (total_cfgs - done_cfgs).max(1.0);
+            done_cfgs += 1.0;
+            let deadline = std::time::Instant::now() + std::time::Duration::from_secs_f64(share);
+            let (out, complete) = explore_schedules(bound, cap, Some(deadline), &mut mk, &mut check);
             ctx.count("layer2_schedules", out.schedules);
             ctx.count("layer2_schedules_with_preemption", out.with_preemption);
             ctx.count_max("layer2_max_scheduling_points", out.max_points as u64);
